@@ -13,7 +13,9 @@
      empty_layer E        every Layer::get_char of E is invisible
      no_overflow L px py  rel_pos L px py <> None
      res_upto_fp          equal results except possibly for the font page
-     status_of / is_visit the layer is visible and covers the position                                  *)
+     status_of / is_visit the layer is visible and covers the position (visited px py L, as a boolean)
+     contribs px py ls    the visited layers of ls, in order, each paired with the cell it holds at the position
+     facet_of (L, c)      (mode, alpha flag, default font page, c)                                      *)
 From Coq Require Import NArith ZArith List Bool.
 From IE Require Import Gen.Comp Model.Composite Proofs.CompositeProofs.
 Import ListNotations.
@@ -89,6 +91,19 @@ Proof. exact insert_empty_alpha_upto_fp_proof. Qed.
 Theorem all_invisible_is_empty : forall E,
   Forall (Forall (fun c => is_visible c = false)) (l_lines E) -> empty_layer E.
 Proof. exact empty_layer_all_invisible. Qed.
+
+(* ---- the cell shown is determined only by the visible layers covering the position, topmost first, and of
+   those only by mode, alpha flag, default font page and the cell they hold at the position ---- *)
+Theorem determined_by_covering_visible_layers : forall B ls px py,
+  Forall (fun L => no_overflow L px py) ls ->
+  get_char (with_layers B ls) px py = get_char (with_layers B (filter (visited px py) ls)) px py.
+Proof. exact determined_by_visited_proof. Qed.
+
+Theorem determined_by_contributions : forall B ls ls' px py,
+  Forall (fun L => no_overflow L px py) ls -> Forall (fun L => no_overflow L px py) ls' ->
+  map facet_of (contribs px py (rev ls)) = map facet_of (contribs px py (rev ls')) ->
+  get_char (with_layers B ls) px py = get_char (with_layers B ls') px py.
+Proof. exact determined_by_contributions_proof. Qed.
 
 (* ---- what get_char computes when no transparent colour is involved: the first visible covering Normal
    layer from the top whose cell is visible or which is opaque decides; the lowest Chars / Attributes layers
